@@ -118,7 +118,7 @@ def jobs(tier, seed):
 # ---------------------------------------------------------------------------
 # part 2: calibrate() then quantize() on the skeleton family, every signature
 # ---------------------------------------------------------------------------
-def make_flow_harness(model_bytes, recipe):
+def make_flow_harness(model_bytes, recipe, concrete=False):
   import copy
   import z3 as _z3
   from props import c09, pipeline as P
@@ -131,6 +131,18 @@ def make_flow_harness(model_bytes, recipe):
     be = symnp.set_backend(B.UF())
     be.reset()
     fakeinterp.STATE.update(sample=0, tag='', content=None)
+    if concrete:
+      # random-DAG cases (thorough tier): the selection/flow obligations do
+      # not depend on tensor values, so concrete contents keep them single
+      # path; the symbolic-statistics exploration runs on the curated family
+      import numpy as _np
+      _rng = _np.random.default_rng(7)
+
+      def _content(tag, sample, si, ti, name, shape, dtype):
+        if dtype.kind == 'f':
+          return _rng.normal(size=shape).astype(dtype)
+        return _rng.integers(0, 2, size=shape).astype(dtype)
+      fakeinterp.STATE['content'] = _content
     model = flatbuffer_utils.read_model_from_bytearray(bytearray(model_bytes))
     log = []
     real_get = algorithm_manager.get_quantization_func
@@ -181,13 +193,13 @@ def job_flow(job):
   from symx.core import Stats
   from props.common import JobResult
   tier = job.args['tier']
-  fam = P.skeleton_family(tier)
   st = Stats()
   cands, inconc = [], []
   for skel, rname in job.args['cases']:
     recipe = c09._recipe(skel, rname, tier)
     en = Engine(solver_timeout_ms=30000, max_paths=300, wall_budget_s=120)
-    en.explore(make_flow_harness(fam[skel], recipe))
+    en.explore(make_flow_harness(P.model_bytes_of(skel, tier), recipe,
+                                 concrete=skel.startswith('dag')))
     st.merge(en.stats)
     inconc += [f'{skel}/{rname}: {x}' for x in en.inconclusive]
     seen = set()
@@ -211,6 +223,8 @@ def _flow_cases(tier):
       k for k in fam if not k.startswith('single_') or k in (
           'single_FC', 'single_EMBEDDING_LOOKUP', 'single_SPLIT',
           'single_CONCAT_SAME', 'single_BMM_CONST', 'single_MEAN')]
+  if tier == 'thorough':
+    names = names + list(P.skeleton_family('thorough_dags'))[:300]
   return [(s, r) for s in names for r in ('a8w8', 'a16w8',
                                           'only_last_op_SRQ8')]
 
@@ -224,7 +238,7 @@ def _replay_flow(c):
   from ai_edge_quantizer import quantizer as quantizer_lib
   from tensorflow.lite.tools import flatbuffer_utils
   d = c['data']
-  mb = P.skeleton_family('thorough')[d['skeleton']]
+  mb = P.model_bytes_of(d['skeleton'], 'thorough')
   recipe = c09._recipe(d['skeleton'], d['recipe'], 'thorough')
   model = flatbuffer_utils.read_model_from_bytearray(bytearray(mb))
   q = quantizer_lib.Quantizer(mb, copy.deepcopy(recipe))
